@@ -19,6 +19,39 @@ verus! {
 
 //@include frag/redb_model.rs
 
+//@include frag/str_order.rs
+impl Database {
+    // begin_read + open_table(TABLE) + range(from..): the committed records whose key is not below `from`, ascending (redb)
+    #[verifier::external_body]
+    pub fn vx_range_from(&self, from: &str) -> (r: Vec<(String, Vec<u8>)>)
+        ensures
+            forall|i: int| 0 <= i < r@.len() ==> self@.dom().contains((#[trigger] r@[i]).0@) && r@[i].1@ == self@[r@[i].0@] && str_le(from@, r@[i].0@),
+            forall|i: int, j: int| 0 <= i < j < r@.len() ==> str_lt((#[trigger] r@[i]).0@, (#[trigger] r@[j]).0@),
+            forall|k: Seq<char>| #[trigger] self@.dom().contains(k) && str_le(from@, k) ==> exists|i: int| 0 <= i < r@.len() && (#[trigger] r@[i]).0@ == k,
+    { unimplemented!() }
+}
+#[verifier::external_body]
+pub fn vx_copied(o: Option<&u64>) -> (r: Option<u64>) ensures r == (match o { Some(v) => Some(*v), None => None }) { o.copied() }
+pub struct VxIter(pub Vec<KVV>);
+// what a prefix read must return: exactly the stored records whose key starts with the prefix, each once, with the
+// indexed version and the bytes stored behind it
+pub open spec fn prefix_read_ok(s: RedbKVVStore, prefix: Seq<char>, out: Seq<KVV>) -> bool {
+    &&& forall|i: int| 0 <= i < out.len() ==> s.db@.dom().contains((#[trigger] out[i]).0@) && is_prefix(prefix, out[i].0@)
+            && out[i].1.0 == s.versions.val@[out[i].0@] && out[i].1.1@ == s.db@[out[i].0@].skip(8)
+    &&& forall|i: int, j: int| 0 <= i < j < out.len() ==> (#[trigger] out[i]).0@ != (#[trigger] out[j]).0@
+    &&& forall|k: Seq<char>| #[trigger] s.db@.dom().contains(k) && is_prefix(prefix, k) ==> exists|i: int| 0 <= i < out.len() && (#[trigger] out[i]).0@ == k
+}
+// the plain write: the next version of the key (0 for a new key)
+pub open spec fn next_version(s: RedbKVVStore, k: Seq<char>) -> u64 { if s.versions.val@.dom().contains(k) { (s.versions.val@[k] + 1) as u64 } else { 0 } }
+
+// every entry is acceptable against the stored state: MemoryKVVStore::put_batch accepts exactly these batches
+pub open spec fn batch_acceptable(s: RedbKVVStore, kvvs: Seq<KVV>) -> bool {
+    forall|i: int| 0 <= i < kvvs.len() ==> write_ok(s, (#[trigger] kvvs[i]).0@, kvvs[i].1.0, kvvs[i].1.1@)
+}
+pub open spec fn keys_distinct(kvvs: Seq<KVV>) -> bool {
+    forall|i: int, j: int| 0 <= i < j < kvvs.len() ==> (#[trigger] kvvs[i]).0@ != (#[trigger] kvvs[j]).0@
+}
+
 impl RedbKVVStore {
 
 //@fn vls-persist/src/kvv/redb.rs :: impl RedbKVVStore :: encode_vv props=C16
@@ -97,6 +130,9 @@ impl RedbKVVStore {
         // a write at the current version is accepted only with the content that is stored
         r.is_ok() ==> forall|i: int| 0 <= i < kvvs@.len() && old(self).versions.val@.dom().contains((#[trigger] kvvs@[i]).0@)
             && kvvs@[i].1.0 == old(self).versions.val@[kvvs@[i].0@] ==> old(self).db@[kvvs@[i].0@] == enc(kvvs@[i].1.0, kvvs@[i].1.1@),   //[C16.redb.batch-same-version-same-content]
+        // agreement with the in-memory backend: a batch of pairwise different keys is accepted exactly when every entry is
+        // acceptable against the stored state, which is MemoryKVVStore::put_batch's rule ([C16.mem.batch-rule])
+        batch_acceptable(*old(self), kvvs@) && keys_distinct(kvvs@) ==> r.is_ok(),                               //[C16.redb.batch-accepts-like-memory]
 //@sub /let tx = self\.db\.begin_write\(\)\.vx_expect\(\);/ => let mut tx = self.db.vx_begin_write();
 //@sub /let mut table = tx\.open_table\(TABLE\)\.vx_expect\(\);/ => 
 //@sub /let existing = table\.get\(key\)\.vx_expect\(\)\.vx_expect\(\);/ => let existing = tx.vx_get(key);
@@ -109,6 +145,10 @@ impl RedbKVVStore {
 //@loop 1 iter=it
             invariant
                 *self == *old(self), redb_inv(*self),
+                // what is staged was written by an earlier entry of the batch; with pairwise different keys and every entry
+                // acceptable against the stored state no mismatch is ever flagged
+                forall|k: Seq<char>| #[trigger] staged_versions@.dom().contains(k) ==> exists|j: int| 0 <= j < it.index@ && (#[trigger] kvvs@[j]).0@ == k,
+                batch_acceptable(*old(self), kvvs@) && keys_distinct(kvvs@) ==> !found_version_mismatch,
                 forall|i: int| 0 <= i < kvvs@.len() ==> (#[trigger] kvvs@[i]).1.1@.len() + 8 <= usize::MAX,
                 // what is staged is in the transaction with its version in front; everything else is as committed
                 forall|k: Seq<char>| #[trigger] tx@.dom().contains(k) ==> (if staged_versions@.dom().contains(k) {
@@ -151,6 +191,146 @@ impl RedbKVVStore {
                 self.db@[k].len() >= 8 && self.db@[k].take(8) == be8(self.versions.val@[k]) by {
                 assert(t_final.dom().contains(k));
                 assert(v_old.dom().contains(k) <==> old(self).db@.dom().contains(k));
+            }
+        }
+//@end
+
+// the same body once more, under the clause "both backends give identical results" asks for: the batch is ACCEPTED whenever
+// every entry is acceptable against the stored state - which is when MemoryKVVStore::put_batch accepts it (unit kvv_memory,
+// [C16.mem.batch-rule]).  The real body refuses one such batch (known finding C16 / put_batch: an entry at the stored
+// version after a higher entry of the same key); kept apart so that the contract above stays verified
+//@fn vls-persist/src/kvv/redb.rs :: impl KVVStore for RedbKVVStore :: put_batch props=C16 as=put_batch_agreement_view
+//@sigsub /&self/ => &mut self
+    requires redb_inv(*old(self)), forall|i: int| 0 <= i < kvvs@.len() ==> (#[trigger] kvvs@[i]).1.1@.len() + 8 <= usize::MAX,
+    ensures
+        batch_acceptable(*old(self), kvvs@) ==> r.is_ok(),   //[C16.redb.batch-accepts-what-memory-accepts]
+//@sub /let tx = self\.db\.begin_write\(\)\.vx_expect\(\);/ => let mut tx = self.db.vx_begin_write();
+//@sub /let mut table = tx\.open_table\(TABLE\)\.vx_expect\(\);/ => 
+//@sub /let existing = table\.get\(key\)\.vx_expect\(\)\.vx_expect\(\);/ => let existing = tx.vx_get(key);
+//@sub /existing\.value\(\) != &vv/ => !vx_vec_eq(&existing, &vv)
+//@sub /table\.insert\(key, vv\.as_slice\(\)\)\.vx_expect\(\);/ => tx.vx_insert(key, vv.as_slice());
+//@sub /drop\(table\);/ => 
+//@sub /tx\.abort\(\)\.vx_expect\(\);/ => tx.vx_abort();
+//@sub /tx\.commit\(\)\.vx_expect\(\);/ => self.db.vx_commit(tx);
+//@sub /(?s)for \(key, value\) in staged_versions\.into_iter\(\) \{\s*self\.versions\.val\.insert\(key, value\);\s*\}/ => self.versions.val.vx_extend(staged_versions);
+//@loop 1 iter=it
+            invariant
+                *self == *old(self), redb_inv(*self),
+                // (this view) what is staged was written by an earlier entry of the batch; with pairwise different keys and
+                // every entry acceptable against the stored state no mismatch is ever flagged
+                forall|k: Seq<char>| #[trigger] staged_versions@.dom().contains(k) ==> exists|j: int| 0 <= j < it.index@ && (#[trigger] kvvs@[j]).0@ == k,
+                batch_acceptable(*old(self), kvvs@) && keys_distinct(kvvs@) ==> !found_version_mismatch,
+                forall|i: int| 0 <= i < kvvs@.len() ==> (#[trigger] kvvs@[i]).1.1@.len() + 8 <= usize::MAX,
+                // what is staged is in the transaction with its version in front; everything else is as committed
+                forall|k: Seq<char>| #[trigger] tx@.dom().contains(k) ==> (if staged_versions@.dom().contains(k) {
+                        tx@[k].len() >= 8 && tx@[k].take(8) == be8(staged_versions@[k])
+                    } else { self.db@.dom().contains(k) && tx@[k] == self.db@[k] }),
+                forall|k: Seq<char>| #[trigger] self.db@.dom().contains(k) ==> tx@.dom().contains(k),
+                forall|k: Seq<char>| #[trigger] staged_versions@.dom().contains(k) ==> tx@.dom().contains(k),
+                // unless a mismatch was flagged, every staged version is above the committed one and every entry seen so far
+                // respects the committed version
+                !found_version_mismatch ==> forall|k: Seq<char>| #[trigger] staged_versions@.dom().contains(k) ==>
+                    !self.versions.val@.dom().contains(k) || staged_versions@[k] > self.versions.val@[k],
+                !found_version_mismatch ==> forall|i: int| 0 <= i < it.index@ ==> !self.versions.val@.dom().contains((#[trigger] kvvs@[i]).0@)
+                    || kvvs@[i].1.0 >= self.versions.val@[kvvs@[i].0@],
+                !found_version_mismatch ==> forall|i: int| 0 <= i < it.index@ && self.versions.val@.dom().contains((#[trigger] kvvs@[i]).0@)
+                    && kvvs@[i].1.0 == self.versions.val@[kvvs@[i].0@] ==> self.db@[kvvs@[i].0@] == enc(kvvs@[i].1.0, kvvs@[i].1.1@),
+//@proof before /tx\.vx_insert\(key, vv\.as_slice\(\)\);/
+            proof { assert(enc(version, value@).take(8) =~= be8(version)); }
+//@proof before /vx_cont = true;/
+                    proof {
+                        // equal version and equal bytes in the transaction: the key cannot have been staged by an earlier
+                        // entry of this batch (its version prefix would differ), so these are the committed bytes
+                        assert(enc(version, value@).take(8) =~= be8(version));
+                        if !found_version_mismatch && staged_versions@.dom().contains(key@) {
+                            lemma_unbe8_be8(version); lemma_unbe8_be8(staged_versions@[key@]);
+                            assert(false);
+                        }
+                    }
+//@proof before /self\.db\.vx_commit\(tx\);/
+        let ghost t_final = tx@;
+        let ghost st_final = staged_versions@;
+        let ghost v_old = self.versions.val@;
+//@proof before /^\s*Ok\(\(\)\)\s*$/
+        proof {
+            assert(self.db@ == t_final);
+            assert(self.versions.val@ == v_old.union_prefer_right(st_final));
+            assert forall|k: Seq<char>| #[trigger] self.versions.val@.dom().contains(k) <==> self.db@.dom().contains(k) by {
+                assert(v_old.dom().contains(k) <==> old(self).db@.dom().contains(k));
+            }
+            assert forall|k: Seq<char>| #[trigger] self.versions.val@.dom().contains(k) implies
+                self.db@[k].len() >= 8 && self.db@[k].take(8) == be8(self.versions.val@[k]) by {
+                assert(t_final.dom().contains(k));
+                assert(v_old.dom().contains(k) <==> old(self).db@.dom().contains(k));
+            }
+        }
+//@end
+
+//@fn vls-persist/src/kvv/redb.rs :: impl KVVStore for RedbKVVStore :: put props=C16 optclosures
+//@sigsub /&self/ => &mut self
+    requires redb_inv(*old(self)), value@.len() + 8 <= usize::MAX,
+        old(self).versions.val@.dom().contains(key@) ==> old(self).versions.val@[key@] < u64::MAX,     // v + 1 aborts (overflow check) at the last version
+    ensures
+        redb_inv(*final(self)),
+        // always accepted, at the next version: index and table move together, every other key is untouched
+        r.is_ok(), final(self).versions.val@ == old(self).versions.val@.insert(key@, next_version(*old(self), key@))
+            && final(self).db@ == old(self).db@.insert(key@, enc(next_version(*old(self), key@), value@)),   //[C16.redb.put-next-version]
+//@sub /self\.versions\.lock\(\)\.vx_expect\(\)\.get\(key\)/ => self.versions.val.get(key)
+//@end
+
+//@fn vls-persist/src/kvv/redb.rs :: impl KVVStore for RedbKVVStore :: delete props=C16
+//@sigsub /&self/ => &mut self
+    requires redb_inv(*old(self)),
+        old(self).versions.val@.dom().contains(key@) ==> old(self).versions.val@[key@] < u64::MAX,
+    ensures
+        redb_inv(*final(self)),
+        // a delete is a write of the empty value at the next version (a tombstone): the version is not lowered
+        r.is_ok(), final(self).versions.val@ == old(self).versions.val@.insert(key@, next_version(*old(self), key@))
+            && final(self).db@ == old(self).db@.insert(key@, enc(next_version(*old(self), key@), Seq::<u8>::empty())),   //[C16.redb.delete-is-a-tombstone]
+//@end
+
+//@fn vls-persist/src/kvv/redb.rs :: impl KVVStore for RedbKVVStore :: get_prefix props=C16
+//@sigsub /&self/ => &mut self
+//@sigsub /Self::Iter/ => VxIter
+    requires redb_inv(*old(self)),
+    ensures
+        *final(self) == *old(self),
+        r.is_ok(), prefix_read_ok(*old(self), prefix@, r->Ok_0.0@),                                   //[C16.redb.prefix-read-is-exactly-the-matching-records]
+//@sub /(?s)let tx = self\.db\.begin_read\(\)\.vx_expect\(\);\s*let table = tx\.open_table\(TABLE\)\.vx_expect\(\);/ => let vx_rng = self.db.vx_range_from(prefix);
+//@sub /let mut result = Vec::new\(\);/ => let mut result: Vec<KVV> = Vec::new();
+//@sub /for item in table\.range\(prefix\.\.\)\.vx_expect\(\) \{/ => for item in it: vx_rng.iter() {
+//@sub /let \(key, vv\) = item\.vx_expect\(\);/ => let key = &item.0; let vv = &item.1;
+//@sub /key\.value\(\)\.starts_with\(prefix\)/ => vx_starts_with(key.as_str(), prefix)
+//@sub /vv\.value\(\)/ => vv.as_slice()
+//@sub /key\.value\(\)\.to_string\(\)/ => vx_to_string(key.as_str())
+//@sub /Ok\(Iter\(result\.into_iter\(\)\)\)/ => Ok(VxIter(result))
+//@loop 1
+            invariant_except_break result@.len() == it.index@,
+            invariant
+                *self == *old(self), redb_inv(*self),
+                result@.len() <= vx_rng@.len(),
+                forall|i: int| 0 <= i < vx_rng@.len() ==> self.db@.dom().contains((#[trigger] vx_rng@[i]).0@) && vx_rng@[i].1@ == self.db@[vx_rng@[i].0@],
+                forall|i: int| 0 <= i < result@.len() ==> (#[trigger] result@[i]).0@ == vx_rng@[i].0@ && result@[i].1.0 == self.versions.val@[vx_rng@[i].0@]
+                    && result@[i].1.1@ == vx_rng@[i].1@.skip(8) && is_prefix(prefix@, result@[i].0@),
+            ensures result@.len() < vx_rng@.len() ==> !is_prefix(prefix@, vx_rng@[result@.len() as int].0@),
+//@proof before /let \(version, value\) = Self::decode_vv/
+                proof {
+                    let k = vx_rng@[it.index@ as int].0@;
+                    assert(self.versions.val@.dom().contains(k) <==> self.db@.dom().contains(k));
+                    lemma_unbe8_be8(self.versions.val@[k]);
+                }
+//@proof before /^\s*Ok\(VxIter\(result\)\)\s*$/
+        proof {
+            let out = result@; let n = out.len() as int;
+            assert forall|k: Seq<char>| #[trigger] self.db@.dom().contains(k) && is_prefix(prefix@, k) implies
+                exists|i: int| 0 <= i < out.len() && (#[trigger] out[i]).0@ == k by {
+                axiom_str_order_prefix_first(prefix@, k);
+                let j = choose|j: int| 0 <= j < vx_rng@.len() && (#[trigger] vx_rng@[j]).0@ == k;
+                if j >= n {
+                    if j > n { axiom_str_order_prefix_block(prefix@, vx_rng@[n].0@, vx_rng@[j].0@); }
+                    assert(false);
+                }
+                assert(out[j].0@ == k);
             }
         }
 //@end
